@@ -418,8 +418,34 @@ def t_each_type(ctx):
     ctx.exhaustive.append('17 message types x 4 chains, each with the complete header / truncation / length-field fault set')
 
 
+def t_big_vectors(ctx):
+    """every vector-bearing message with 252 / 253 / 254 entries (CompactSize boundary of the count) and 1,000 entries; the same
+    message twice in one stream (state must not carry over from the first to the second)"""
+    h = lambda i: bytes([i % 256, i // 256 % 256] + [7] * 30).hex()
+    hdr = lambda i: {'version': 2, 'prev': h(i), 'root': h(i + 1), 'time': i, 'bits': 0x1d00ffff, 'nonce': i}
+    k = 0
+    for n in (252, 253, 254, 1000):
+        msgs = [{'type': 'addr', 'addrs': [{'time': i, 'services': 1, 'ip': '10.0.%d.%d' % (i // 256, i % 256), 'port': 8333} for i in range(n)]},
+                {'type': 'inv', 'inv': [[1 + i % 2, h(i)] for i in range(n)]},
+                {'type': 'getdata', 'inv': [[2, h(i)] for i in range(n)]},
+                {'type': 'notfound', 'inv': [[1, h(i)] for i in range(n)]},
+                {'type': 'getblocks', 'version': 70001, 'vHave': [h(i) for i in range(n)], 'hashstop': h(9)},
+                {'type': 'getheaders', 'version': 70001, 'vHave': [h(i) for i in range(n)], 'hashstop': h(9)},
+                {'type': 'headers', 'headers': [hdr(i) for i in range(n)]}]
+        for m in msgs:
+            k += 1
+            if k % ctx.nshards == ctx.shard:
+                small = dict(m)
+                for f in ('addrs', 'inv', 'vHave', 'headers'):
+                    if f in small:
+                        small[f] = small[f][:2]
+                ctx.run({'chain': libx.CHAINS[k % 4], 'msgs': [m, small, m]})
+    if ctx.shard == 0:
+        ctx.exhaustive.append('7 vector-bearing message types x {252, 253, 254, 1000} entries, each followed by a 2-entry and the same big message')
+
+
 def coverage_gaps(classes, tier):
     return ['message type never generated: ' + t for t in R.COMMANDS if not classes.get('type:' + t)]
 
 
-TASKS = [('streams', (t_streams, 8)), ('faults', (t_faults, 7)), ('each_type', (t_each_type, 1))]
+TASKS = [('streams', (t_streams, 8)), ('faults', (t_faults, 7)), ('each_type', (t_each_type, 1)), ('big_vectors', (t_big_vectors, 4))]
